@@ -112,7 +112,7 @@ def _chain(pid, req, t3=None):
     if t3:
         PROPS[pid]["t3"] = t3
 
-_chain("C03", ["ante_accept_sound", "wrong_key_rejected", "mutation_rejected", "low_fee_rejected", "fee_from_signer", "sig_limit_enforced", "sig_limit_within", "unknown_signer_rejected", "accounts_run"])
+_chain("C03", ["ante_accept_sound", "wrong_key_rejected", "mutation_rejected", "low_fee_rejected", "fee_from_signer", "sig_limit_enforced", "sig_limit_within", "unknown_signer_rejected", "accounts_run", "accepted_pays_multiplied_fee", "multiplier_first_match"])
 _chain("C11", ["reject_frame", "readonly_frame", "undecodable_frame", "accept_shape"])
 PROPS["C11"]["lean_modules"] = PROPS["C11"]["lean_modules"] + ["Posmint.Props.C03"]
 PROPS["C11"]["namespaces"] = PROPS["C11"]["namespaces"] + ["Posmint.Props.C03"]
